@@ -14,24 +14,28 @@ fn cfg(tier: Tier, index: u64) -> HistCfg {
     // every 16th case is a long history on few keys, every 50th uses big values
     let long = index % 16 == 5;
     let big = index % 50 == 7;
+    // thorough: a few histories of up to 1e5 calls (8-bucket and 65536-bucket tables)
+    let huge = tier == Tier::Thorough && index % 2500 == 11;
     let mut w = Weights::basic();
     w.flush = 2;
     w.reopen = 2;
-    let n_ops = if long {
+    let n_ops = if huge {
+        50000..=100000
+    } else if long {
         tier.pick(1..=2500, 1..=12000)
     } else {
         tier.pick(1..=400, 1..=600)
     };
-    HistCfg {
+    let mut c = HistCfg {
         kts: Kt::ALL.to_vec(),
         key: if index % 7 == 0 { KeyProfile::Long } else { KeyProfile::Medium },
-        n_keys: if long { 3..=40 } else if index % 5 == 0 { 30..=300 } else { 3..=40 },
+        n_keys: if huge { 50..=1500 } else if long { 3..=40 } else if index % 5 == 0 { 30..=300 } else { 3..=40 },
         bufs: if index % 3 == 0 { BufProfile::Any } else { BufProfile::Plain },
-        allow_lt8: true,
-        max_buckets: 65536,
+        allow_lt8: !huge,
+        max_buckets: if huge && index % 5000 == 11 { 8 } else { 65536 },
         ops: OpsCfg {
             w,
-            val: if big { ValProfile::Big } else { ValProfile::Mixed },
+            val: if huge { ValProfile::Small } else if big { ValProfile::Big } else { ValProfile::Mixed },
             n_ops,
             reopen_params: None,
             reopen_child: false,
@@ -43,7 +47,12 @@ fn cfg(tier: Tier, index: u64) -> HistCfg {
             ..Default::default()
         },
         target_pct: 25,
+    };
+    // every 40th case: hundreds of keys in a table of 1..4 buckets (chains beyond 256 entries)
+    if index % 40 == 13 && !huge {
+        make_dense(&mut c, tier == Tier::Thorough);
     }
+    c
 }
 
 fn nontrivial(_h: &History, r: &Report) -> bool {
@@ -119,7 +128,8 @@ fn enum_history(seq: &[usize]) -> History {
             kt: Kt::Bytes,
             params: Params::plain(Buckets::BucketsSize(8)),
             keys,
-        }],
+                late: false,
+            }],
         ops: seq.iter().map(|&i| alpha[i].clone()).collect(),
         obs: Obs {
             full_compare_every_op: true,
@@ -134,7 +144,7 @@ impl Prop for C01 {
         "C01"
     }
     fn rule(&self) -> String {
-        "seeded random call histories (put/get/delete/includes_key/len/is_empty, 2% flush, 2% close+reopen; all five key types; 3-300 pool keys with lengths on key-slot boundaries; values biased to slot-class edges, the large list, 4 KiB multiples, rarely 128 KiB/1 MiB; tables 1..65536 buckets; 25% bucket-targeted) compared call by call with a BTreeMap, final full comparison + independent decode; plus bounded-exhaustive enumeration of all call sequences up to length 4 (thorough: 5) over 3 colliding keys x value sizes {0,14,15} x {put,delete,get} with a full comparison after every update. A random case is non-trivial if it has (a delete of a present key and an overwrite that changes the value's slot class) or a key/value file beyond 16 KiB or an observed key-record relocation; every enumerated sequence of length >= 3 containing a put after a delete is non-trivial. Distinctness by digest of the case."
+        "seeded random call histories (put/get/delete/includes_key/len/is_empty, 2% flush, 2% close+reopen; all five key types; 3-300 pool keys with lengths on key-slot boundaries; values biased to slot-class edges, the large list, 4 KiB multiples, rarely 128 KiB/1 MiB; tables 1..65536 buckets; 25% bucket-targeted; every 16th history has up to 2500 calls (thorough 12000), thorough adds 60 histories of 5e4-1e5 calls) compared call by call with a BTreeMap, final full comparison + independent decode; plus bounded-exhaustive enumeration of all call sequences up to length 4 (thorough: 5) over 3 colliding keys x value sizes {0,14,15} x {put,delete,get} with a full comparison after every update. A random case is non-trivial if it has (a delete of a present key and an overwrite that changes the value's slot class) or a key/value file beyond 16 KiB or an observed key-record relocation; every enumerated sequence of length >= 3 containing a put after a delete is non-trivial. Distinctness by digest of the case."
             .to_string()
     }
     fn assumptions(&self) -> Vec<String> {
